@@ -40,13 +40,17 @@ pub enum OpKind {
     CScale(f64),
     /// a * b + c
     CFused3,
+    /// custom operations that broadcast like the built-in ones; their derivative closures return deltas of the
+    /// OUTPUT's shape and rely on the engine to sum them down to the operand's shape
+    CBAdd,
+    CBMul,
 }
 
 impl OpKind {
     pub fn arity(&self) -> usize {
         use OpKind::*;
         match self {
-            Add | Sub | Mul | Div | Axpy(_) | Conv { .. } | CAdd | CMul => 2,
+            Add | Sub | Mul | Div | Axpy(_) | Conv { .. } | CAdd | CMul | CBAdd | CBMul => 2,
             Matmul { has_c, .. } => {
                 if *has_c {
                     3
@@ -87,13 +91,15 @@ impl OpKind {
             CMul => "custom_mul",
             CScale(_) => "custom_scale",
             CFused3 => "custom_fused3",
+            CBAdd => "custom_broadcast_add",
+            CBMul => "custom_broadcast_mul",
         }
     }
     /// operations that are exact on small integer / dyadic data whatever the summation order
     pub fn is_exact(&self) -> bool {
         use OpKind::*;
         match self {
-            Add | Sub | Mul | Neg | Sum(_) | Reshape(_) | Matmul { .. } | Conv { .. } | Relu | ActRelu | CAdd | CMul | CFused3 => true,
+            Add | Sub | Mul | Neg | Sum(_) | Reshape(_) | Matmul { .. } | Conv { .. } | Relu | ActRelu | CAdd | CMul | CFused3 | CBAdd | CBMul => true,
             ScaleR(k) | ScaleL(k) | Axpy(k) | CScale(k) => is_dyadic(*k),
             Powf(e) => *e == 1.0 || *e == 2.0 || *e == 3.0,
             _ => false,
@@ -101,7 +107,7 @@ impl OpKind {
     }
     pub fn is_nonlinear(&self) -> bool {
         use OpKind::*;
-        matches!(self, Mul | Div | Powf(_) | Ln | Exp | Recip | Matmul { .. } | Conv { .. } | Relu | Sigmoid | Softmax | ActRelu | ActSigmoid | ActSoftmax | CMul | CFused3)
+        matches!(self, Mul | Div | Powf(_) | Ln | Exp | Recip | Matmul { .. } | Conv { .. } | Relu | Sigmoid | Softmax | ActRelu | ActSigmoid | ActSoftmax | CMul | CFused3 | CBMul)
     }
     /// operations that take their (single) operand by value
     pub fn consumes_operand(&self) -> bool {
@@ -109,7 +115,7 @@ impl OpKind {
     }
     pub fn is_custom(&self) -> bool {
         use OpKind::*;
-        matches!(self, CAdd | CMul | CScale(_) | CFused3)
+        matches!(self, CAdd | CMul | CScale(_) | CFused3 | CBAdd | CBMul)
     }
 }
 
